@@ -96,7 +96,7 @@ const exampleStdin = "রহিম\n২৫\nline three\nline four\nline five\nli
 
 func checkC13(c *Ctx) {
 	rFresh, rSame := 24, 40
-	sel := []corpusSpec{{"FamObjects", "FamObjects_quick.cfg", 9, `^litnf[ab]:o;(litnf[ab]:p;|write:o\.[abc];|del:o\.[abc];)?(\|quiet)?$`}, {"FamOrder", "FamOrder_quick.cfg", 3, ""}, {"FamWild", "FamWild_quick.cfg", 60, ""}, {"FamCalls", "FamCalls_quick.cfg", 20, ""},
+	sel := []corpusSpec{{"FamObjects", "FamObjects_quick.cfg", 9, `^litnf[ab]:o;(litnf[ab]:p;|write:o\.[abc];|del:o\.[abc];|delnf:o\.[12];)?(\|quiet)?$`}, {"FamOrder", "FamOrder_quick.cfg", 3, ""}, {"FamWild", "FamWild_quick.cfg", 60, ""}, {"FamCalls", "FamCalls_quick.cfg", 20, ""},
 		{"FamFaults", "FamFaults_quick.cfg", 12, "two-faults"}, {"FamInput", "FamInput.cfg", 7, ""}}
 	if c.Tier == "thorough" {
 		rFresh, rSame = 200, 300
